@@ -11,7 +11,8 @@
 EXTENDS Integers, Sequences, FiniteSets, TLC, Json
 
 CONSTANTS MaxSize, MaxScope, Emit,
-          Prods      \* enabled productions (focused configurations)
+          Prods,     \* enabled productions (focused configurations)
+          StartScope \* number of variables already in scope for HoleSpec (0 otherwise)
 
 VARIABLES prefix, pending      \* pending: sequence of scope sizes of the holes still to fill
 vars == <<prefix, pending>>
@@ -42,6 +43,10 @@ Spec == Init /\ [][Next]_vars
 \* programs of this family which go wrong.
 SkelInit == prefix = <<N("app", 0), N("lam", 0), N("let", 0), N("lam", 0)>> /\ pending = <<2, 2, 0>>
 SkelSpec == SkelInit /\ [][Next]_vars
+\* a single hole whose scope already holds StartScope variables: the fillers of H, K and A are enumerated separately
+\* and the check forms their product (the skeleton family at the needed size has ~10^8 members as one state space)
+HoleInit == prefix = <<>> /\ pending = <<StartScope>>
+HoleSpec == HoleInit /\ [][Next]_vars
 EmittedRaw == (Emit /\ pending = <<>>) => PrintT(<<"TERM", ToJson([p |-> [j \in DOMAIN prefix |-> <<prefix[j].g, prefix[j].a>>]])>>)
 
 Arity(g) == CASE g \in {"var", "int", "str", "tt", "none"} -> 0
